@@ -41,12 +41,13 @@ fn op_kind(op: &Op) -> &'static str {
 
 /// One seeded scenario: generate a fault-free history, pick targets, enumerate every fault position of each.
 pub fn scenario(seed: u64, sticky: bool, max_points: u64) -> RunOutcome {
-    scenario_for(seed, sticky, max_points, "C09", Oracles { io_errors: true, ..Default::default() }, false)
+    scenario_for(seed, sticky, max_points, "C09", Oracles { io_errors: true, ..Default::default() }, None, false)
 }
 
 /// The same enumeration in the service of another property: `oracles` decide what is checked in the fault-free run and
-/// (in its relaxed form) after the failed operation; `only_mutating` restricts the targets to calls that change the volume.
-pub fn scenario_for(seed: u64, sticky: bool, max_points: u64, prop: &'static str, oracles: Oracles, only_mutating: bool) -> RunOutcome {
+/// (in its relaxed form) after the failed operation; `which` restricts the targets; with `retry` the failed call is issued
+/// once more without a fault (for oracles that stay in force after a storage error).
+pub fn scenario_for(seed: u64, sticky: bool, max_points: u64, prop: &'static str, oracles: Oracles, which: Option<fn(&Op) -> bool>, retry: bool) -> RunOutcome {
     let mut r = Rng::new(seed);
     let mut fl = props::base_flavor(prop);
     fl.oracles = oracles;
@@ -72,7 +73,7 @@ pub fn scenario_for(seed: u64, sticky: bool, max_points: u64, prop: &'static str
         return o;
     }
     // candidate targets: steps that issued device calls
-    let cands: Vec<usize> = (0..base.trace.len()).filter(|i| base.step_calls.get(*i).copied().unwrap_or(0) > 0 && !matches!(base.trace[*i].op, Op::Checkpoint | Op::Remount { .. } | Op::Clock { .. }) && (!only_mutating || crate::c14::is_mutating(&base.trace[*i].op))).collect();
+    let cands: Vec<usize> = (0..base.trace.len()).filter(|i| base.step_calls.get(*i).copied().unwrap_or(0) > 0 && !matches!(base.trace[*i].op, Op::Checkpoint | Op::Remount { .. } | Op::Clock { .. }) && which.map_or(true, |f| f(&base.trace[*i].op))).collect();
     if cands.is_empty() {
         return o;
     }
@@ -101,6 +102,9 @@ pub fn scenario_for(seed: u64, sticky: bool, max_points: u64, prop: &'static str
             let mut steps: Vec<Step> = base.trace[..=t].to_vec();
             steps[t].hard_at = Some(k);
             steps[t].sticky = sticky;
+            if retry {
+                steps.push(base.trace[t].clone());
+            }
             let mut src = ReplaySource { steps: steps.clone(), i: 0 };
             let res = exec::run(cfg.clone(), prop, &mut src, steps.len() + 1);
             o.evaluations += 1;
